@@ -217,6 +217,9 @@ class Ctx:
             args = tuple(K(a) for a in n["args"])
             # std::complex(x) with defaulted imaginary part is x for ring purposes; keep generic here
             r = ("ctor", strip_targs(n.get("crec") or n.get("t"))) + args
+            # std::complex(x, 0) / std::complex(x) built from a real value denote x (value-level identity used by guards and formulas)
+            if r[1] == "std::complex" and ((len(args) == 2 and args[1] == ("lit", 0)) or (len(args) == 1 and "complex" not in (self.fn.nodes[n["args"][0]].get("t") or ""))):
+                r = args[0]
         elif k == "bin":
             r = ("op", n["op"], K(n["l"]), K(n["r"]))
         elif k == "un":
